@@ -179,11 +179,23 @@ func ReadFile(path string) ([]byte, error) {
 func WithOverlay(rel, old, new string, fn func()) bool {
 	path := filepath.Join(RepoDir, rel)
 	b, err := os.ReadFile(path)
-	if err != nil || !strings.Contains(string(b), old) {
+	if err != nil {
 		return false
 	}
+	// several edits of one file: old and new hold the parts joined by "\x00"
+	olds, news := strings.Split(old, "\x00"), strings.Split(new, "\x00")
+	if len(olds) != len(news) {
+		return false
+	}
+	text := string(b)
+	for i := range olds {
+		if !strings.Contains(text, olds[i]) {
+			return false
+		}
+		text = strings.Replace(text, olds[i], news[i], 1)
+	}
 	loadMu.Lock()
-	overlay = map[string][]byte{path: []byte(strings.Replace(string(b), old, new, 1))}
+	overlay = map[string][]byte{path: []byte(text)}
 	overlayEpoch++
 	loadMu.Unlock()
 	defer func() {
